@@ -150,6 +150,12 @@ def find_masters(prog: Program):
             if ast.dump(node) != ast.dump(f.node):
                 f = copy.copy(f)
                 f.node = node
+        # chunk origins spelled `for i, start in enumerate(range(0, P*S, S))`
+        from .idioms import normalise_enumerate_range
+        node = normalise_enumerate_range(f.node)
+        if ast.dump(node) != ast.dump(f.node):
+            f = copy.copy(f)
+            f.node = node
         if f.module.name.endswith("utils.mpi"):
             continue
         ifs = [n for n in ast.walk(f.node) if isinstance(n, ast.If)
